@@ -657,7 +657,8 @@ namespace
                 return value(std::make_shared<d_array>());
             }
 
-            return value(std::vector<value>(vec.begin() + start, start + length > static_cast<int>(vec.size()) ? vec.end() : vec.begin() + start + length));
+            // start <= size here; start + length can exceed the range of int
+            return value(std::vector<value>(vec.begin() + start, length > static_cast<int>(vec.size()) - start ? vec.end() : vec.begin() + start + length));
         }
         else
         {
